@@ -171,6 +171,25 @@ def pools(seed=0, n=400, budget_s=40, known_labels=()):
         if a is b:
             failures.append({"label": "hashcons/annotation-hash-collision", "kind": "bounded", "witness": {"lower_bounds": [l1, l2]},
                              "detail": f"BVS annotated with StridedIntervalAnnotation(lower_bound={l1}) and ...({l2}) are the same object carrying {a.annotations}"})
+    # claripy's own field-carrying annotation on one variable, exhaustively over a grid of small NON-NEGATIVE field values (whose
+    # Python hashes are pairwise different, so the listed finding about colliding integer hashes does not apply): different fields
+    # must give different objects, equal fields the same object
+    D = [0, 1, 2, 3, 5, 7, 8, 255]
+    alive = {}
+    for st in D:
+        for lo in D:
+            for hi in D:
+                evals += 1
+                n_ = x[0].annotate(StridedIntervalAnnotation(st, lo, hi))
+                o = alive.setdefault(id(n_), ((st, lo, hi), n_))
+                if o[0] != (st, lo, hi):
+                    failures.append({"label": "hashcons/annotation-fields-merged", "kind": "bounded", "witness": {"fields": [list(o[0]), [st, lo, hi]]},
+                                     "detail": f"a variable annotated with StridedIntervalAnnotation{o[0]} and with StridedIntervalAnnotation{(st, lo, hi)} "
+                                               f"is one object, carrying {n_.annotations}"})
+                    break
+                if x[0].annotate(StridedIntervalAnnotation(st, lo, hi)) is not n_:
+                    failures.append({"label": "hashcons/equal-not-merged", "kind": "bounded", "witness": {"fields": [st, lo, hi]},
+                                     "detail": "the same annotation on the same variable gives two objects"})
     real = [f for f in failures if f["label"] not in known_labels]
     kh = {}
     for f in failures:
@@ -190,6 +209,11 @@ def replay_pools(task, failure):
         a = x.annotate(StridedIntervalAnnotation(1, w["lower_bounds"][0], 5))
         b = x.annotate(StridedIntervalAnnotation(1, w["lower_bounds"][1], 5))
         return {"reproduced": a is b, "text": f"annotated with lower bounds {w['lower_bounds']}: same object = {a is b}; annotations {a.annotations} / {b.annotations}"}
+    if "fields" in w and isinstance(w["fields"][0], list):
+        x = claripy.BVS("hc_replay", 8, explicit_name=True)
+        a = x.annotate(StridedIntervalAnnotation(*w["fields"][0]))
+        b = x.annotate(StridedIntervalAnnotation(*w["fields"][1]))
+        return {"reproduced": a is b, "text": f"x annotated with StridedIntervalAnnotation{tuple(w['fields'][0])} / {tuple(w['fields'][1])}: same object = {a is b}; it carries {a.annotations}"}
     return {"reproduced": True, "text": failure.get("detail", "")}
 
 
